@@ -28,6 +28,8 @@ VARIANTS = [
     {'entry': 'solve', 'scale': 1.0, 'default_none': False},
     {'entry': 'solve', 'scale': 0.25, 'default_none': True},
 ]
+# construction / offsets are additionally exercised over span types (the linker compares its submodels' spans)
+SPAN_VARIANTS = [dict(v, span=k) for v, k in zip(VARIANTS, ('list', 'nparray', 'pdindex', 'pdperiod'))]
 
 
 def run_slice(ctx, init, maxn, maxi, tag):
@@ -59,7 +61,7 @@ def run(ctx: core.Ctx) -> None:
     maxn, maxi = (2, 2) if quick else (3, 3)
     for init, tag, mn, mi in (('CoreInit', 'core', maxn, maxi), ('BuildInit', 'build', 3 if not quick else 2, 1), ('OffsetInit', 'offset', maxn, 2)):
         recs = run_slice(ctx, init, mn, mi, tag)
-        payloads = [{'records': ch, 'variants': VARIANTS, 'all_variants': (tag != 'core' or not quick), 'seed': ctx.seed}
+        payloads = [{'records': ch, 'variants': VARIANTS + (SPAN_VARIANTS if tag == 'build' else []), 'all_variants': (tag != 'core' or not quick), 'seed': ctx.seed}
                     for ch in core.chunks(recs, core.NCPU * 2)]
         outs = core.run_workers('harness.replay_linker', payloads)
         ctx.evaluations += sum(o['n'] for o in outs)
